@@ -538,10 +538,15 @@ fn case(m: &mut Mon, r: &mut Rng, _idx: u64) {
             let ml = { let mut v = gen::small_mag(r); if gen::nlimbs(&v) == 0 { v = vec![7]; } v };
             let mop = r.below(4);
             let mname = ["add", "sub", "mul", "div"][mop as usize];
-            let d = || format!("reduced op={} m={} a={} b={}", mname, gen::hex(&ml), gen::hex(&al), gen::hex(&bl));
-            m.check("reduced", mname, nt.map(|h| gen::hash_limbs(h, &ml)), &d, || {
+            // one case in four takes the right operand from another ring instance (equal or different modulus): the ring
+            // check lives in every form separately
+            let other = r.below(8);
+            let ml2 = if other == 1 { let mut v = gen::small_mag(r); if gen::nlimbs(&v) == 0 { v = vec![11]; } v } else { ml.clone() };
+            let d = || format!("reduced op={} m={} a={} b={} right operand from {}", mname, gen::hex(&ml), gen::hex(&al), gen::hex(&bl), if other < 2 { format!("a second ring with modulus {}", gen::hex(&ml2)) } else { "the same ring".to_string() });
+            m.check("reduced", &format!("{}{}", mname, if other < 2 { "/two_rings" } else { "" }), nt.map(|h| gen::hash_limbs(h, &ml) ^ other), &d, || {
                 let ring = ConstDivisor::new(ubig(&ml));
-                let (x, y) = (ring.reduce(ia.clone()), ring.reduce(ib.clone()));
+                let ring2 = ConstDivisor::new(ubig(&ml2));
+                let (x, y) = (ring.reduce(ia.clone()), if other < 2 { ring2.reduce(ib.clone()) } else { ring.reduce(ib.clone()) });
                 let mut v: Forms = vec![];
                 macro_rules! rforms {
                     ($op:tt, $opa:tt) => {{
@@ -559,13 +564,14 @@ fn case(m: &mut Mon, r: &mut Rng, _idx: u64) {
                     2 => rforms!(*, *=),
                     _ => rforms!(/, /=),
                 }
+                agree(&v, &format!("reduced {}", mname))?;
                 if mop == 2 {
                     v.clear();
                     v.push(("sqr", catch(|| x.sqr().residue().show())));
                     v.push(("mul_self", catch(|| (&x * &x).residue().show())));
                     v.push(("pow2", catch(|| x.pow(&UBig::from(2u8)).residue().show())));
                 }
-                if mop == 0 {
+                if mop == 0 && other >= 2 {
                     v.push(("commuted", catch(|| (&y + &x).residue().show())));
                 }
                 agree(&v, &format!("reduced {}", mname))
